@@ -30,7 +30,7 @@ ANCHORS = []
 WORKERS = {"quick": 12, "thorough": 16}
 WATCHDOG = {"quick": 1200, "thorough": 3400}
 REQUIRED = {"pair:A-has-resonance-B-lacks": 5, "pair:A-cartesian-B-not": 3, "pair:crossing-reader-classes": 5, "hash-seeds>=2": 1, "exact-reproducibility-run": 2,
-            "history-length>=3": 2, "printing-conversion-after-a-failed-returning-one": 2, "failed-cartesian-read-then-polar-file": 5, "printing-conversion-with-colours-after-a-returning-one": 2, "text-argument-read-after-another-read": 2, "same-amplitudes-under-two-event-orders-in-one-process": 2, "file-converted-again-after-another": 2, "same-bare-resonance-name-different-sub-lines": 2, "fresh-single-runs": 10, **{f"entry:{e}": 3 for e in ENTRIES}, "across-hash-seeds-compared": 3, "all-ordered-file-pairs": 1}
+            "history-length>=3": 2, "same-long-file-through-two-reader-classes-back-to-back": 2, "printing-conversion-after-a-failed-returning-one": 2, "failed-cartesian-read-then-polar-file": 5, "printing-conversion-with-colours-after-a-returning-one": 2, "text-argument-read-after-another-read": 2, "same-amplitudes-under-two-event-orders-in-one-process": 2, "file-converted-again-after-another": 2, "same-bare-resonance-name-different-sub-lines": 2, "fresh-single-runs": 10, **{f"entry:{e}": 3 for e in ENTRIES}, "across-hash-seeds-compared": 3, "all-ordered-file-pairs": 1}
 EXHAUSTIVE_NOTE = "all 36 ordered pairs of pool files are run in every tier (entry points rotated over the 25 ordered entry pairs); all ordered triples of 3 files in thorough"
 ASSUMPTIONS = ["inside the fresh interpreters the pure name lookup is memoised per (name, particle-table size); the library's one-time loading of the special particles happens inside each history",
                "the parent cannot instrument the child interpreters with sys.monitoring: anchors are not traced for this property (results are observed at the process boundary)"]
@@ -81,6 +81,8 @@ def write_pool(workdir):
     for i, m in enumerate(models):
         with open(os.path.join(workdir, f"pool{i}.txt"), "w", encoding="utf-8") as f:
             f.write(A.render(m, random.Random(i), style={"crlf": False, "indent": False, "comments": i % 2 == 0, "blank": True}))
+            if i == 4:      # one long file (the shipped model has 18 kB): the same amplitudes, 8 kB of comment lines behind them
+                f.write("".join(f"# note {k:03d}: tuned on the 2019 sample, do not edit by hand ..........\n" for k in range(130)))
     with open(os.path.join(workdir, f"pool{POISON}.txt"), "w", encoding="utf-8") as f:
         f.write(A.POISON_TEXT)
     models.append({"event": ["D0", "K-", "pi+", "pi+", "pi-"], "lines": [], "params": [], "consts": [], "cartesian": 1, "extras": [], "unreadable": True})
@@ -211,6 +213,8 @@ class Runner:
             ctx.hit("text-argument-read-after-another-read")
         if any(e.endswith("_print") for _, e in hist[1:]):
             ctx.hit("printing-conversion-with-colours-after-a-returning-one")
+        if len(hist) >= 2 and hist[0][0] == hist[1][0] == 4 and hist[0][1] != hist[1][1]:
+            ctx.hit("same-long-file-through-two-reader-classes-back-to-back")
         if hist[0][0] == POISON and hist[0][1] in ("cpp", "py") and len(hist) >= 2 and hist[1][1].endswith("_print"):
             ctx.hit("printing-conversion-after-a-failed-returning-one")
         if hist[0][0] == POISON and len(hist) >= 2:
@@ -301,6 +305,9 @@ def run(ctx):
         jobs.append(([[2, "read_py"], [5, "read_py_text"], [3, "read_cpp_text"]], 1, "text-argument"))
         # a printing conversion (colours on) after string-returning ones: what is printed does not depend on them
         jobs.append(([[0, "cpp"], [1, "cpp_print"]], 0, "printed-after-returned"))
+        # the same (long) file through two reader classes back to back
+        jobs.append(([[4, "cpp"], [4, "py"]], 0, "same-long-file-two-readers"))
+        jobs.append(([[4, "read_py"], [4, "read_cpp"], [4, "read"]], 0, "same-long-file-two-readers"))
         # ... and after a string-returning conversion that FAILED: what the next printing conversion sends to the terminal is still all of it
         jobs.append(([[POISON, "cpp"], [0, "cpp_print"]], 0, "printed-after-failed-returning"))
         jobs.append(([[POISON, "py"], [1, "py_print"], [2, "cpp_print"]], 0, "printed-after-failed-returning"))
